@@ -184,7 +184,7 @@ def run_model(ops_path, out_path):
 
 def run_impl(ops_path, out_path, timeout=600):
     try:
-        p = subprocess.run([HARNESS, "run", "-in", ops_path, "-out", out_path], stdout=subprocess.PIPE,
+        p = subprocess.run([HARNESS, "run", "-in", ops_path, "-out", out_path, "-rw", ops_path + ".rw"], stdout=subprocess.PIPE,
                            stderr=subprocess.PIPE, text=True, timeout=timeout, env=GOENV)
         return p.returncode, p.stderr[-2000:]
     except subprocess.TimeoutExpired:
@@ -243,6 +243,13 @@ def eval_history(lines, tag="tmp"):
     impl = read_lines(ip) if os.path.exists(ip) else []
     if rc != 0:
         impl = impl + ["crash:%d" % rc]
+    # Model L's operations carry what only the implementation knows (the cached view, the random
+    # descent of an eviction): the model gets those lines as THIS run produced them
+    if os.path.exists(op + ".rw"):
+        rwl = read_lines(op + ".rw")
+        os.remove(op + ".rw")
+        if len(rwl) == len(lines):
+            lines = [r if l.split(" ")[0] in ("cstate", "cstatein", "cevict") else l for l, r in zip(lines, rwl)]
     mlines, impl = second_pass(lines, impl)
     with open(op, "w") as f:
         f.write("\n".join(mlines) + "\n")
